@@ -15,11 +15,17 @@ use std::sync::{Condvar, Mutex, OnceLock};
 
 static STOP_AT_POLL: AtomicI64 = AtomicI64::new(0);
 static POLLS: AtomicU64 = AtomicU64::new(0);
+static LAST_NODES: AtomicU64 = AtomicU64::new(0);
+static MAX_NODES: AtomicU64 = AtomicU64::new(0);
+static NODES_AT_STOP: AtomicU64 = AtomicU64::new(0);
 
 /// Make the stop flag read true from the `k`-th load on (`k <= 0` disables), and reset the counter.
 pub fn set_stop_at_poll(k: i64) {
     STOP_AT_POLL.store(k, Ordering::SeqCst);
     POLLS.store(0, Ordering::SeqCst);
+    LAST_NODES.store(0, Ordering::SeqCst);
+    MAX_NODES.store(0, Ordering::SeqCst);
+    NODES_AT_STOP.store(0, Ordering::SeqCst);
 }
 
 /// Number of loads of the stop flag since the last `set_stop_at_poll`.
@@ -31,7 +37,25 @@ pub fn polls() -> u64 {
 pub fn poll() -> bool {
     let n = POLLS.fetch_add(1, Ordering::SeqCst) + 1;
     let k = STOP_AT_POLL.load(Ordering::SeqCst);
-    k > 0 && n >= k as u64
+    let stop = k > 0 && n >= k as u64;
+    if stop && n == k as u64 {
+        NODES_AT_STOP.store(LAST_NODES.load(Ordering::SeqCst), Ordering::SeqCst);
+    }
+    stop
+}
+
+/// Called with the node count wherever the search asks whether it should stop.
+pub fn note_nodes(nodes: u64) {
+    LAST_NODES.store(nodes, Ordering::SeqCst);
+    MAX_NODES.fetch_max(nodes, Ordering::SeqCst);
+}
+
+/// (node count when the forced stop was first observed, largest node count seen since the reset)
+pub fn nodes_observed() -> (u64, u64) {
+    (
+        NODES_AT_STOP.load(Ordering::SeqCst),
+        MAX_NODES.load(Ordering::SeqCst),
+    )
 }
 
 struct Sched {
